@@ -119,11 +119,14 @@ class Sys(e2.DevSys):
                 acts += [("ann-start",)]
         elif c.get("lifecycle"):
             acts += [("ann-stop",), ("connlost",)] if self.started else [("ann-start",)]
+        if c.get("lifecycle") and len(self.specs) >= 2 and self.started and nfind <= 1:
+            # one of several instances is withdrawn (the others go on and must go on answering)
+            acts += [("svc-stop", n) for n in range(len(self.specs)) if n not in getattr(self, "inst_stopped", {})]
         return acts
 
     def ready(self, n, t):
         """instance n has queued its first offer strictly before t (and is running)"""
-        if not self.started:
+        if not self.started or n in getattr(self, "inst_stopped", {}):
             return False
         r = self.loop._clock_resolution
         return self.run_start + self.d < t - r
@@ -152,6 +155,10 @@ class Sys(e2.DevSys):
             self.started = False
             self.stopped_at = now
             self.prot.connection_lost(None)
+        elif act[0] == "svc-stop":
+            self.inst_stopped = dict(getattr(self, "inst_stopped", {}))
+            self.inst_stopped[act[1]] = now
+            ann.stop_announce_service(self.insts[act[1]])
         elif act[0] == "evidence":
             self.extra = getattr(self, "extra", ()) + ("evidence",)
             data = refcodec.sd_message(self.session, [])  # the session id of the request again, reboot flag set
@@ -195,6 +202,10 @@ class Sys(e2.DevSys):
                 # a stop between the request and the moment the answer leaves cancels it or not (C10
                 # decides that it must not follow the StopOffer); it is not required here
                 st = self.stopped_at
+                sn = getattr(self, "inst_stopped", {}).get(n)
+                if sn is not None and t - r <= sn <= hi + c + r:
+                    expected.append((n, lo, hi + c, "maybe"))
+                    continue
                 if st is not None and t - r <= st <= hi + c + r:
                     expected.append((n, lo, hi + c, "maybe"))
                     continue
@@ -225,7 +236,8 @@ class Sys(e2.DevSys):
             if e[4] != cfg["ttl"] or e[5] != spec[3] or e[6] != want_opts or e[7] != ():
                 self.viol("answer", "content", f"instance {spec[:4]} answered with {e}")
             ok = lo - r <= t <= hi + r
-            if ok and first and c and mode == "must" and len(self.finds) == 1:
+            if ok and first and c and mode == "must" and len(self.finds) == 1 and not getattr(self, "inst_stopped", {}):
+                # (... or when another instance's stop flushed the queue the answer was waiting in)
                 # (an answer still in the send collector when the instance stops is flushed: earlier is fine; with two
                 # requests an answer may join the collection period the other answer opened and leave earlier, too)
                 ok = abs(t - hi) < r
@@ -277,18 +289,20 @@ def cfgs(ctx):
 
 def restrict(thorough, cfg, devs, p, k):
     if k == 1:
-        if p[2][0] in ("ann-stop", "connlost", "stop+find") and not thorough:
+        if p[2][0] in ("ann-stop", "connlost", "stop+find", "svc-stop") and not thorough:
             return p[0] <= 1.3  # control events: every instant of the first 1.3 s
         return True
     if not cfg.get("lifecycle"):
         return False
     first = devs[0][2][0]
     if k == 2:
+        if first == "svc-stop":
+            return p[2][0] == "find" and p[0] - devs[0][0] <= 0.3
         if first in ("ann-stop", "connlost"):
             return p[2][0] in ("find", "ann-start") and p[0] - devs[0][0] <= (1.2 if thorough else 0.3)
         if first == "find":
             # a stop shortly after a find (while the delayed answer is pending)
-            if p[2][0] in ("ann-stop", "connlost", "evidence"):
+            if p[2][0] in ("ann-stop", "connlost", "evidence", "svc-stop"):
                 return p[0] - devs[0][0] <= 0.1
             # a unicast request while the delayed answer to a multicast request is pending: its answer overtakes
             return p[2][0] == "find" and devs[0][2][1] == 1 and p[2][1] == 0 and p[0] - devs[0][0] <= 0.07 \
